@@ -1,4 +1,5 @@
 """C16 - template application edits exactly what the template names."""
+import itertools
 import random as _random
 
 from rt import moltools as T, gen as G
@@ -359,7 +360,8 @@ def deprotection_rules():
 def reactor_checks(ctx, rng, pool):
     """multi-reactant templates: colliding numbers, order independence, one-shot / exhaustive"""
     templ = [
-        ('amidation', ('[C:1](=[O:2])[O;D1:3]', '[N;D1,D2;z1:4][C:5]'), ('[A:1](=[A:2])[A:4][A:5]',), ('CC(=O)O', 'OC(=O)c1ccccc1', 'OC(=O)CC(=O)O'), ('CN', 'CNC', 'NCCN', 'NCc1ccccc1')),
+        ('amidation', ('[C:1](=[O:2])[O;D1:3]', '[N;D1,D2;z1:4][C:5]'), ('[A:1](=[A:2])[A:4][A:5]',), ('CC(=O)O', 'OC(=O)c1ccccc1', 'OC(=O)CC(=O)O', 'OC(=O)CC(C(O)=O)CCC(O)=O', 'OC(=O)CC(CC(O)=O)(CC(O)=O)CCC(O)=O'),
+         ('CN', 'CNC', 'NCCN', 'NCc1ccccc1', 'NCC(CN)(CN)CCN', 'NCC(N)CN')),
         ('esterification', ('[C:1](=[O:2])[O;D1:3]', '[O;D1:4][C;z1:5]'), ('[A:1](=[A:2])[A:4][A:5]',), ('CC(=O)O', 'OC(=O)c1ccccc1'), ('CO', 'OCCO', 'CC(C)O')),
         ('sn2', ('[C;z1:1][Br:2]', '[O-:3][C:4]'), ('[A:1][O:3][A:4]', '[Br-:2]'), ('CBr', 'BrCCBr', 'CC(C)Br'), ('C[O-]', 'CC[O-]')),
     ]
@@ -372,6 +374,8 @@ def reactor_checks(ctx, rng, pool):
                 continue
             for a in as_:
                 for b in bs:
+                    if not one_shot and (len(a) > 14 or len(b) > 12):
+                        continue       # exhaustive mode on poly-functional partners is a polymerisation: left to the one-shot runs
                     ma, mb = smiles(a), smiles(b)      # both numbered from 1: colliding numbers
                     ctx.evaluations += 1
                     try:
@@ -384,6 +388,10 @@ def reactor_checks(ctx, rng, pool):
                     ctx.case(key=(name, a, b, one_shot), nontrivial=bool(r1), n=0)
                     p1 = sorted(sorted(_canon(p) for p in r.products) for r in r1)
                     p2 = sorted(sorted(_canon(p) for p in r.products) for r in r2)
+                    if one_shot:
+                        # the reactions are the combinations of the two reactants' own single-reactant results: as many distinct product
+                        # sets as (distinct products of A alone) x (distinct products of B alone) would allow at most, never fewer than max
+                        ctx.count('reactor.unequal-site-counts' if len(r1) > 1 else 'reactor.single-combination')
                     if p1 != p2:
                         ctx.violation('product-set-depends-on-reactant-order', '%s(%s, %s) one_shot=%r: %s vs %s' % (name, a, b, one_shot, p1[:2], p2[:2]),
                                       {'template': name, 'smiles': a + '.' + b})
@@ -401,7 +409,10 @@ def reactor_checks(ctx, rng, pool):
                         p3 = sorted(sorted(_canon(p) for p in r.products) for r in rx(na, nb))
                         ctx.count('numbering.compared')
                         if p3 != p1:
-                            ctx.violation('product-set-depends-on-numbering', '%s(%s, %s) one_shot=%r' % (name, a, b, one_shot), {'template': name, 'smiles': a + '.' + b})
+                            poly = not one_shot and len(r1) > 8
+                            ctx.violation('product-set-depends-on-numbering' + ('/exhaustive-mode-oligomers' if poly else ''),
+                                          '%s(%s, %s) one_shot=%r: %d reactions, %d after renumbering' % (name, a, b, one_shot, len(p1), len(p3)),
+                                          {'template': name, 'smiles': a + '.' + b})
                     except Exception as e:
                         ctx.violation('reactor-raises/%s/%s' % (name, type(e).__name__), '%s renumbered: %r' % (name, e), {'template': name, 'smiles': a + '.' + b})
     # templates that create atoms, run with spectator molecules (more molecules than patterns): new atoms must get numbers no
@@ -462,6 +473,35 @@ def reactor_checks(ctx, rng, pool):
                             ctx.count('reactor.composed')
                         except Exception as e:
                             ctx.violation('reaction-does-not-compose/%s' % type(e).__name__, '%s on %s: %r' % (name, w['smiles'], e), w)
+    # exhaustive mode: the set of product mixtures is closed under one more application (every centre of every molecule reacts)
+    for name, pats, prods, subs in creating:
+        try:
+            queries = tuple(smarts(p) for p in pats)
+            rx1 = Reactor(queries, tuple(smarts(p) for p in prods), one_shot=True)
+            rxe = Reactor(queries, tuple(smarts(p) for p in prods), one_shot=False)
+        except Exception:
+            continue
+        for pair in itertools.combinations_with_replacement(subs, 2):
+            mols = [smiles(x) for x in pair]
+            w = {'template': name, 'smiles': '.'.join(pair)}
+            ctx.evaluations += 1
+            try:
+                got = {tuple(sorted(_canon(p) for p in r.products)) for r in rxe(*mols)}
+                # own closure with the one-shot reactor
+                want, frontier = set(), [mols]
+                while frontier and len(want) < 200:
+                    cur = frontier.pop()
+                    for r in rx1(*cur):
+                        key = tuple(sorted(_canon(p) for p in r.products))
+                        if key not in want:
+                            want.add(key)
+                            frontier.append([p.copy() for p in r.products])
+            except Exception as e:
+                ctx.violation('reactor-raises/%s/%s' % (name, type(e).__name__), '%s exhaustive on %s: %r' % (name, pair, e), w)
+                continue
+            ctx.count('reactor.exhaustive-closures')
+            if got != want and len(want) < 200:
+                ctx.violation('exhaustive-mode-not-closed', '%s on %s: missing %s, extra %s' % (name, pair, sorted(want - got)[:2], sorted(got - want)[:2]), w)
     # built-in prepared reactors on simple partners
     try:
         from chython.reactor import reactions as RX
